@@ -6,7 +6,6 @@ cd "$(dirname "$0")"
 export GOFLAGS=-mod=mod GOPROXY=off
 unset GOSUMDB GOTOOLCHAIN || true
 mkdir -p .build evidence replays
-( cd coq && coq_makefile -f _CoqProject -o Makefile >/dev/null && timeout 3000 make -j16 )
-sh harness/gomod.sh
-( cd harness && timeout 3000 go build -tags verif -o ../.build/harness . )
+( cd coq && { echo "-Q theories Verif"; ls theories/*.v | sort; } > _CoqProject && coq_makefile -f _CoqProject -o Makefile >/dev/null && timeout 3000 make -j16 )
+( cd harness && for d in cmd/*/; do p=$(basename "$d" | tr a-z A-Z); sh ./gomod.sh "../.build/mod-$p"; timeout 3000 go build -modfile="../.build/mod-$p/go.mod" -tags verif -o "../.build/harness-$p" "./$d"; done )
 echo "setup ok"
